@@ -115,6 +115,8 @@ def make_overlay(harness, tmp):
     instr = cfg.get("instrument", "none")
     if instr != "none" or cfg.get("instrument_harness"):
         pkgs = all_instr_pkgs() if instr == "all" else ([] if instr == "none" else list(instr))
+        excl = cfg.get("instrument_exclude", [])
+        pkgs = [p for p in pkgs if not any(p == e or p.startswith(e + "/") for e in excl)]
         # inpkg files of instrumented packages are instrumented with them
         pkgs += ["+%s=%s" % (f, d) for f, d in inpkg_files if d in pkgs]
         for lib in cfg.get("libs", []):
